@@ -79,7 +79,7 @@ PROPS = {
     },
     "C15": {
         "module": "Shutter.Properties.C15",
-        "theorems": ["C15_exact", "C15_atomic", "C15_domain_canonical", "C15_domain_fork", "sync_inv", "reach_inv", "C15_sql_pinned", "C15_open_finding_witness"],
+        "theorems": ["C15_exact", "C15_atomic", "C15_domain_canonical", "C15_domain_fork", "sync_inv", "reach_inv", "C15_sql_pinned", "C15_open_finding_witness", "C15_reregistration_witness"],
         "driver": {"pkg": "./cmd/synccheck", "args": ["-prop", "C15"]},
         "facts": ["sql"],
         "trusted_base": [KERNEL, CORR,
@@ -105,6 +105,9 @@ PROPS = {
         "assumptions": ["forks deeper than the assumed reorg depth, and a first new head more than one past the synced block, are outside "
                         "the property's domain and are not generated",
                         "open known finding reorg-missed-when-head-skips-position+1 (inside the domain as stated)",
+                        "the theorem needs every key to occur once on a chain (StepOK.uniq): the identity registry and the sequencer "
+                        "guarantee that, the event trigger registry does not — open known finding reregistered-trigger-rolled-back "
+                        "(C15_reregistration_witness in the model, a dedicated scenario on the code)",
                         "the validator registry syncer is not one of the three syncers of the property; syncrig's self-test shows it "
                         "has no reorg handling at all (recorded in DESIGN.md, not judged here)"],
     },
@@ -127,7 +130,12 @@ PROPS = {
                        "the next block, at and after expiry and on both sides of forks, with range limits 1/2/3/5/100 and faults; the "
                        "fired rows are compared after every step with the block-by-block outcome computed by the rig, at the end with "
                        "a second keyper that batches differently, and with the model.",
-        "assumptions": ["decrypted flags are not set during these runs (the interaction with key release is C02)"],
+        "assumptions": ["decrypted flags are not set during these runs (the interaction with key release is C02)",
+                        "the theorems are about the forward processing of one chain; what a reorg rollback does to the rows is "
+                        "C15's model. A trigger registered twice on one chain and then rolled back past its second registration "
+                        "loses its fired row: open known finding reregistered-trigger-rolled-back (dedicated scenario; the ordinary "
+                        "scenarios register a trigger once per chain and keyper set, also for both keyper sets with expiries of "
+                        "their own, and every third definition compares a topic numerically)"],
     },
     "C03": {
         "module": "Shutter.Properties.C03",
